@@ -64,16 +64,18 @@ type Step struct {
 }
 
 type Session struct {
-	ID      int     `json:"id"`
-	Kind    string  `json:"kind"` // capacity isolation updates manage
-	Min     int64   `json:"min"`
-	Max     int64   `json:"max"`
-	Model   int     `json:"model"`
-	Rules   []RuleV `json:"rules"`
-	Gated   bool    `json:"gated"`
-	CheckV  bool    `json:"checkv"`
-	Script  []Step  `json:"script"`
-	Timeout int     `json:"timeout"`
+	ID    int     `json:"id"`
+	Kind  string  `json:"kind"` // capacity isolation updates manage
+	Min   int64   `json:"min"`
+	Max   int64   `json:"max"`
+	Model int     `json:"model"`
+	Rules []RuleV `json:"rules"`
+	Gated bool    `json:"gated"`
+	// GateHooks: requests are also parked at the hooks inside getGengine (after each emptiness read, while spinning)
+	GateHooks bool   `json:"gatehooks"`
+	CheckV    bool   `json:"checkv"`
+	Script    []Step `json:"script"`
+	Timeout   int    `json:"timeout"`
 }
 
 type Obj struct{ Id int64 }
@@ -194,7 +196,7 @@ func (d *drv) hook(site string, a, b int64) {
 		if !ok {
 			q = -1
 		}
-		d.o.Emit(obs.Event{"ev": "pop", "q": q, "i": a, "locked": b})
+		d.o.Emit(obs.Event{"ev": "pop", "q": q, "i": a, "locked": b % 2, "len": b / 2})
 	case "spin":
 		g := goid()
 		d.mu.Lock()
@@ -205,9 +207,18 @@ func (d *drv) hook(site string, a, b int64) {
 		if first {
 			d.o.Emit(obs.Event{"ev": "spin", "q": q})
 		}
-		runtime.Gosched()
+		if d.sess.GateHooks {
+			d.o.Park("spin")
+		} else {
+			runtime.Gosched()
+		}
+	case "freelen", "addlen":
+		// yield points between the emptiness test of a list and the pop under its lock
+		if d.sess.GateHooks {
+			d.o.Park(site)
+		}
 	case "push":
-		d.o.Emit(obs.Event{"ev": "push", "i": a, "locked": b})
+		d.o.Emit(obs.Event{"ev": "push", "i": a, "locked": b % 2, "len": b / 2})
 	case "publish":
 		if d.gatePub {
 			d.o.Hold(obs.Event{"ev": "publish", "i": a, "kind": b}, "publish")
